@@ -20,6 +20,12 @@ CHECKS = {
   "(keys, +/- indices, splats, multi-key, recursive descent with predicate, nested matches, to-be-created suffixes). Held on the cases generated.",
   "Alias-free JSON-model documents; type-incompatible prefixes are outside the quantifier; writes over nested matches and non-finite floats are not asserted.",
   "DESIGN.md §5 C02"),
+ "C03": ("exploration",
+  "reference-model monitor: the selection is resolved to a set of locations on a pure value model and the expected document is the input minus exactly those",
+  "Three families (fresh documents, unions of overlapping/identical selections in both orders, containers just derived by sort/reverse/slice/unique/map/+/filter/flatten) "
+  "run through the real evaluator; the result must equal the model's deletion. Held on the cases generated.",
+  "Alias-free JSON-model documents; deleting the root is not generated; the deriving functions are computed by the C01 reference interpreter.",
+  "DESIGN.md §5 C03"),
  "C17": ("exploration",
   "real-consumer monitor: yq's @sh / -o=shell text is executed by dash and bash (strace execve watch + canary) and parsed by an independent POSIX word parser",
   "Each generated hostile string / document goes through the real encoder (library and binary); the shells must see exactly one word / exactly the "
